@@ -518,4 +518,16 @@ theorem multi_get_set (m : Multi) (sid sid' : Nat) (s : Option Stream) :
   · have : (sid' == sid) = false := by simpa using h
     simp [Multi.get, Multi.set, List.lookup, this, h]
 
+/-- the parser loop never touches the encoding -/
+theorem loop_keeps_enc (cd : Codec) (es : Bool) (a a' : Adapter) (h : (loop cd es a).next = some a') :
+    a'.enc = a.enc := by
+  fun_induction loop cd es a with
+  | case1 a hr hlt => simp at h; subst h; rfl
+  | case2 a hr hlt hd => simp at h
+  | case3 a hr hlt d hd a2 c he => simp at h; subst h; rfl
+  | case4 a hr hlt d hd a2 c he ih => exact ih (by simpa [Res.cons] using h)
+  | case5 a hr pre hlt => simp at h; subst h; rfl
+  | case6 a hr pre hlt a1 he => simp at h; subst h; rfl
+  | case7 a hr pre hlt a1 he r ih => exact ih (by simpa [r] using h)
+
 end Martian.Grpc
